@@ -178,6 +178,9 @@ func shrink(h *history, f failure, budget int) (*history, failure) {
 			return nil
 		}
 		budget--
+		if f.Class == "hang" && h.Codec != "magic" {
+			t.DeadlineS = 5 // the inputs of a history are small enough for any call to end within 5 s
+		}
 		fs, _ := outcomeOf(t)
 		return hasClass(fs, f.Class)
 	}
@@ -228,8 +231,14 @@ func shrink(h *history, f failure, budget int) (*history, failure) {
 				o.Bad.Len /= 2
 				return last.Bad.Len > 0 && last.Bad.Mode != "zstdfcs" && last.Bad.Mode != "snappylen"
 			},
-			func(o *op) bool { o.EncDst = dstSpec{Mode: "nil"}; return last.EncDst.Mode != "nil" && last.EncDst.Mode != "" },
-			func(o *op) bool { o.DecDst = dstSpec{Mode: "nil"}; return last.DecDst.Mode != "nil" && last.DecDst.Mode != "" },
+			func(o *op) bool {
+				o.EncDst = dstSpec{Mode: "nil"}
+				return last.EncDst.Mode != "nil" && last.EncDst.Mode != ""
+			},
+			func(o *op) bool {
+				o.DecDst = dstSpec{Mode: "nil"}
+				return last.DecDst.Mode != "nil" && last.DecDst.Mode != ""
+			},
 		} {
 			o := last
 			if !cand(&o) {
